@@ -112,7 +112,8 @@ func (e *FEnc) atCall(st *State, in ssa.Instruction, name string, args []*Val, r
 				e.unsupportedOnce(fmt.Sprintf("at-call %s %q: %v", c.Pat, c.Src, err))
 				continue
 			}
-			// locals of the clause do not exist at this call site: it must be one the clause does not apply to
+			// the clause cannot be evaluated at this call site: it must be one the clause does not apply to
+			e.unsupportedOnce(fmt.Sprintf("at-call %s %q (treated as false where its 'when' holds): %v", c.Pat, c.Src, err))
 			g = "false"
 		}
 		e.obligePart("atcall", clauseKey(c, "atcall("+c.Pat+")"), c.Props, in.Pos(), "at "+name+": "+c.Src, reach, g)
